@@ -549,6 +549,26 @@ class CharArrIn(K):
         return ["z%s=i:%d" % (self.n, len(a)), "%s=S:%s" % (self.n, "".join("[%s]" % rtrim(v) for v in a))]
 
 
+class VecStrIn(K):
+    """const std::vector<std::string> & from character(len=4) :: v(n), n = 0, 1, 3"""
+    cxx_only = True
+    nvals = 3
+
+    def yaml(self): return "const std::vector<std::string> &%s" % self.n
+    def cparam(self, lang): return "const std::vector<std::string> &%s" % self.n
+    def body(self, lang):
+        return ['printf(" %s=VS:%%d:", (int) %s.size());' % (self.n, self.n),
+                '{ size_t i_; for (i_ = 0; i_ < %s.size(); i_++) printf("%%d[%%s]", (int) %s[i_].size(), %s[i_].c_str()); }' % (self.n, self.n, self.n)]
+    def fdecl(self): return ["character(len=4), allocatable :: %s(:)" % self.n]
+    def fset(self, r):
+        a = CARR[r % 3]
+        return ["if (allocated(%s)) deallocate(%s)" % (self.n, self.n), "allocate(%s(%d))" % (self.n, len(a))] + \
+               ["%s(%d) = %s" % (self.n, i + 1, fstr(v)) for i, v in enumerate(a)]
+    def lib_tokens(self, r, cnt, env):
+        a = CARR[r % 3]
+        return ["%s=VS:%d:%s" % (self.n, len(a), "".join("%d[%s]" % (len(rtrim(v)), rtrim(v)) for v in a))]
+
+
 VDEST = [0, 1, 3, 5]
 
 
@@ -690,7 +710,7 @@ class GenArr(K):
 
 ARG_KINDS_C = [IntVal, DblVal, BoolVal, BoolOut, BoolInout, IntOut, IntInout, HiddenOut, ArrIn, ArrInout, ArrOut, ArrAllocOut,
                PtrPtrOut, PtrPtrOutN, PtrPtrOut3, ArrAllocOutN, ImplText, CharArrIn, CstrIn, CstrOut, CstrInout]
-ARG_KINDS_CXX = ARG_KINDS_C + [IntRefOut, StringIn, StringOut, StringInout, VecIn, VecOut, VecOutAlloc, VecInout, VecInoutAlloc]
+ARG_KINDS_CXX = ARG_KINDS_C + [IntRefOut, StringIn, StringOut, StringInout, VecIn, VecOut, VecOutAlloc, VecInout, VecInoutAlloc, VecStrIn]
 
 # ------------------------------------------------------------------ results
 # (tag, yaml type prefix, attrs, C return type, C return expression, Fortran decl, print call, expected fn(cnt), cxx_only)
@@ -832,6 +852,7 @@ def fixed_spec(cxx):
     funcs.append(Func("mixc", "int", [CharArrIn("mc"), CstrInout("mi")]))
     if cxx:
         funcs.append(Func("mixv", "void", [StringIn("vs"), VecOut("vo"), VecIn("vi")]))
+        funcs.append(Func("mixs", "int", [VecStrIn("sv"), CstrIn("sc")]))
         funcs.append(Func("mixw", "cstr", [VecInoutAlloc("wv"), StringOut("ws"), VecOutAlloc("wa")]))
     if cxx:
         funcs.append(Func("rvec", "vecres", [IntVal("qv")]))
@@ -1132,17 +1153,17 @@ KIND_OF = {
     "ArrAllocOut": ["nativeOutAlloc"], "ArrAllocOutN": ["nativeOutAlloc"],
     "VecIn": ["vectorIn"], "VecOut": ["vectorOut"], "VecOutAlloc": ["vectorOutAlloc"], "VecInout": ["vectorInout"],
     "VecInoutAlloc": ["vectorInoutAlloc"], "PtrPtrOut": ["ptrPtrOut"], "PtrPtrOutN": ["ptrPtrOut"], "PtrPtrOut3": ["ptrPtrOut"],
-    "CharArrIn": ["charArrayIn"],
+    "CharArrIn": ["charArrayIn"], "VecStrIn": ["vecStrIn"],
 }
 KIND_OF_RES = {"int": "native", "double": "native", "bool": "boolResult(default block)", "chr": "charScalarResult", "cstr_len": "charResult",
                "string_len": "stringResult", "vecres": "vectorResultAlloc", "iptr": "resultPointer", "ialloc": "resultAlloc",
                "iptr2": "resultPointer", "ialloc2": "resultAlloc", "iptr3": "resultPointer", "ialloc3": "resultAlloc",
-               "cstr": "allocatable character result (_partial)", "string": "allocatable character result (_partial)",
-               "string_ref": "allocatable character result (_partial)"}
+               "cstr": "charResultAlloc", "string": "stringValResultAlloc", "string_ref": "stringResultAlloc"}
 MODELLED_KINDS = ["boolIn", "boolOut", "boolInout", "charIn", "charOut", "charInout", "stringIn", "stringOut", "stringInout",
                   "charResult", "stringResult", "charScalarResult", "native", "nativeOutAlloc", "vectorIn", "vectorOut",
                   "vectorOutAlloc", "vectorInout", "vectorInoutAlloc", "vectorResult", "vectorResultAlloc", "ptrPtrOut",
-                  "resultPointer", "resultAlloc", "charArrayIn"]
+                  "resultPointer", "resultAlloc", "charArrayIn", "charResultAlloc", "stringResultAlloc", "stringValResultAlloc",
+                  "vecStrIn", "vecStrOut", "vecStrInout"]
 import collections as _collections
 KIND_RUNS = _collections.Counter()   # kind -> number of (function, configuration) executions whose trace matched
 
